@@ -18,7 +18,8 @@ static BIG: std::sync::atomic::AtomicUsize = std::sync::atomic::AtomicUsize::new
 
 #[derive(Clone, Debug, PartialEq)]
 pub struct EObs {
-    pub meta: (String, u64, u64, u32, u16, u16, u16),
+    /// name, size, csize, crc, method, date, time, header_start, central_header_start, data_start, mode
+    pub meta: (String, u64, u64, u32, u16, u16, u16, u64, u64, u64, Option<u32>),
     pub content: Result<Vec<u8>, String>,
     /// three reads after EOF all returned Ok(0)
     pub post_eof_zero: bool,
@@ -92,7 +93,7 @@ pub fn run_seekable<R: Read + Seek>(r: R, pw: Option<&[u8]>, bufsize: usize, zer
             };
             match opened {
                 Ok(mut f) => {
-                    let meta = (f.name().to_string(), f.size(), f.compressed_size(), f.crc32(), method_id(f.compression()), f.last_modified().datepart(), f.last_modified().timepart());
+                    let meta = (f.name().to_string(), f.size(), f.compressed_size(), f.crc32(), method_id(f.compression()), f.last_modified().datepart(), f.last_modified().timepart(), f.header_start(), f.central_header_start(), f.data_start(), f.unix_mode());
                     let (content, post) = read_entry(&mut f, bufsize, zero);
                     o.entries.push(EObs { meta, content, post_eof_zero: post });
                 }
@@ -109,7 +110,7 @@ pub fn run_stream<R: Read>(mut r: R, bufsize: usize, zero: bool) -> Result<RObs,
         loop {
             match zip::read::read_zipfile_from_stream(&mut r) {
                 Ok(Some(mut f)) => {
-                    let meta = (f.name().to_string(), f.size(), f.compressed_size(), f.crc32(), method_id(f.compression()), f.last_modified().datepart(), f.last_modified().timepart());
+                    let meta = (f.name().to_string(), f.size(), f.compressed_size(), f.crc32(), method_id(f.compression()), f.last_modified().datepart(), f.last_modified().timepart(), f.header_start(), f.central_header_start(), f.data_start(), f.unix_mode());
                     let (content, post) = read_entry(&mut f, bufsize, zero);
                     o.entries.push(EObs { meta, content, post_eof_zero: post });
                 }
